@@ -24,8 +24,49 @@ struct S16
   bool operator==(const S16 &o) const { return a == o.a && b == o.b && c == o.c; }
 };
 
+// an element type whose copies can be made to fail: when armed, the k-th copy construction / copy assignment from now
+// on throws (what a heap-owning element does when memory runs out); it has no move operations on purpose
+struct InjectedFault
+{
+};
+static long g_failInCopies = 0;
+static long g_faultsHit    = 0;
+static inline void copyFailpoint()
+{
+  if (g_failInCopies > 0 && --g_failInCopies == 0) {
+    ++g_faultsHit;
+    throw InjectedFault();
+  }
+}
+struct F16
+{
+  double a;
+  long b;
+  F16() : a(0), b(0) {}
+  F16(double a_, long b_) : a(a_), b(b_) {}
+  F16(const F16 &o) : a(o.a), b(o.b) { copyFailpoint(); }
+  F16 &operator=(const F16 &o)
+  {
+    copyFailpoint();
+    a = o.a;
+    b = o.b;
+    return *this;
+  }
+  bool operator==(const F16 &o) const { return a == o.a && b == o.b; }
+};
+
 template <typename T>
 struct E;
+template <typename T>
+struct CanFail
+{
+  static bool yes() { return false; }
+};
+template <>
+struct CanFail<F16>
+{
+  static bool yes() { return true; }
+};
 template <>
 struct E<uint8_t>
 {
@@ -56,6 +97,13 @@ struct E<S16>
     s.c = -(int)v;
     return s;
   }
+};
+
+template <>
+struct E<F16>
+{
+  static const char *name() { return "failing16"; }
+  static F16 make(uint64_t v) { return F16((double)v * 0.25, (long)v * 7 + 1); }
 };
 
 enum Kind
@@ -232,6 +280,32 @@ struct World
         vh::violation(std::string("C11:source<") + E<T>::name() + ">:modified", "a source vector changed although nothing wrote to it", ctx + " after " + after);
   }
 
+  // ---- an operation on an OwnedArray failed half way (an element copy threw). The array must still describe live
+  //      storage: size() is the size before or the size asked for, every element can be read (a stale range is an
+  //      ASan report right here) and is the element the old or the new contents have at that index. The model then
+  //      continues from what the array holds.
+  void afterFault(int si, const std::vector<T> &oldC, const std::vector<T> &newC, const std::string &what)
+  {
+    Slot &s = slots[si];
+    AbstractArray<T> &a = *s.abs();
+    std::string fam = std::string("C11:OwnedArray<") + E<T>::name() + ">:";
+    size_t n = a.size();
+    vh::count("owned_array_ops_failed_by_failpoint");
+    if (n != oldC.size() && n != newC.size())
+      vh::violation(fam + "size-after-failed-operation", "size()=" + std::to_string(n) + " is neither the size before (" + std::to_string(oldC.size()) + ") nor the size asked for (" + std::to_string(newC.size()) + ")", ctx + " | " + what + " [threw]");
+    std::vector<T> now;
+    bool foreign = false;
+    for (size_t i = 0; i < n; ++i) {
+      const T &e = a.data()[i];
+      if (!((i < oldC.size() && e == oldC[i]) || (i < newC.size() && e == newC[i])))
+        foreign = true;
+      now.push_back(e);
+    }
+    if (foreign)
+      vh::violation(fam + "contents-after-failed-operation", "an element is neither what the array held before nor what the failed operation was storing", ctx + " | " + what + " [threw]");
+    s.buf = newBuf(now), s.off = 0, s.n = n;
+  }
+
   // ---- write through a wrapper (element i)
   void writeThrough(int si, size_t i)
   {
@@ -373,20 +447,51 @@ struct World
       }
       int src = pickSource(r);
       std::vector<T> &v = *sources[src].v;
-      int f = (int)r.below(3);
+      int f = (int)r.below(5);
+      const std::vector<T> oldC(bufs[s.buf].begin() + s.off, bufs[s.buf].begin() + s.off + s.n);
+      std::vector<T> newC;
+      size_t off = 0, n = 0;
       if (f == 0) {
-        *s.oa = v;
-        s.buf = newBuf(bufs[sources[src].buf]), s.n = v.size();
+        newC = bufs[sources[src].buf];
         what = "OwnedArray=vector(n=" + std::to_string(v.size()) + ")";
       } else if (f == 1) {
-        s.oa->reset();
-        s.buf = newBuf(std::vector<T>()), s.n = 0;
         what = "OwnedArray.reset()";
-      } else {
-        size_t off = v.size() ? r.below(v.size()) : 0, n = v.size() ? r.below(v.size() - off + 1) : 0;
-        s.oa->reset(v.data() + off, n);
-        s.buf = newBuf(std::vector<T>(bufs[sources[src].buf].begin() + off, bufs[sources[src].buf].begin() + off + n)), s.n = n;
+      } else if (f == 2) {
+        off = v.size() ? r.below(v.size()) : 0, n = v.size() ? r.below(v.size() - off + 1) : 0;
+        newC.assign(bufs[sources[src].buf].begin() + off, bufs[sources[src].buf].begin() + off + n);
         what = "OwnedArray.reset(ptr," + std::to_string(n) + ")";
+      } else if (f == 3) {  // the source range lies inside the array's own storage
+        off = s.n ? r.below(s.n) : 0, n = s.n ? r.below(s.n - off + 1) : 0;
+        newC.assign(oldC.begin() + off, oldC.begin() + off + n);
+        what = "OwnedArray.reset(own data()+" + std::to_string(off) + "," + std::to_string(n) + ")";
+        vh::count("owned_array_self_sourced_resets");
+      } else {
+        newC = oldC;
+        what = "OwnedArray=itself";
+      }
+      bool armed = CanFail<T>::yes() && r.chance(1, 3);
+      if (armed) {
+        g_failInCopies = 1 + (long)r.below(newC.size() + 1);
+        what += "[fail at copy " + std::to_string(g_failInCopies) + "]";
+      }
+      try {
+        if (f == 0)
+          *s.oa = v;
+        else if (f == 1)
+          s.oa->reset();
+        else if (f == 2)
+          s.oa->reset(v.data() + off, n);
+        else if (f == 3)
+          s.oa->reset(s.oa->data() + off, n);
+        else {
+          const OwnedArray<T> &self = *s.oa;
+          *s.oa = self;
+        }
+        g_failInCopies = 0;
+        s.buf = newBuf(newC), s.n = newC.size();
+      } catch (const InjectedFault &) {
+        g_failInCopies = 0;
+        afterFault(si, oldC, newC, what);
       }
       s.off = 0;
       break;
@@ -397,10 +502,22 @@ struct World
         return;
       size_t n = (size_t)r.pick(std::vector<int>{0, 1, 5, 33, 130, 600, 3000});
       T val    = E<T>::make(counter++);
-      s.oa->resize(n, val);
-      bufs[s.buf].resize(n, val);
-      s.n  = n;
-      what = "OwnedArray.resize(" + std::to_string(n) + ")";
+      what     = "OwnedArray.resize(" + std::to_string(n) + ")";
+      const std::vector<T> oldC(bufs[s.buf].begin() + s.off, bufs[s.buf].begin() + s.off + s.n);
+      std::vector<T> newC(oldC);
+      newC.resize(n, val);
+      if (CanFail<T>::yes() && r.chance(1, 3)) {
+        g_failInCopies = 1 + (long)r.below(n + oldC.size() + 1);
+        what += "[fail at copy " + std::to_string(g_failInCopies) + "]";
+      }
+      try {
+        s.oa->resize(n, val);
+        g_failInCopies = 0;
+        s.buf = newBuf(newC), s.off = 0, s.n = n;
+      } catch (const InjectedFault &) {
+        g_failInCopies = 0;
+        afterFault(si, oldC, newC, what);
+      }
       break;
     }
     case 9:
@@ -412,13 +529,30 @@ struct World
       Slot &d = slots[di];
       bool assign = d.kind == s.kind && r.chance(1, 2);
       if (s.kind == OA) {
+        const std::vector<T> srcC(bufs[s.buf].begin() + s.off, bufs[s.buf].begin() + s.off + s.n);
+        std::vector<T> oldD;
         if (assign)
-          *d.oa = *s.oa;
-        else {
-          d.clear();
-          d.oa.reset(new OwnedArray<T>(*s.oa));
+          oldD.assign(bufs[d.buf].begin() + d.off, bufs[d.buf].begin() + d.off + d.n);
+        bool threw = false;
+        if (CanFail<T>::yes() && r.chance(1, 3))
+          g_failInCopies = 1 + (long)r.below(s.n + 1);
+        try {
+          if (assign)
+            *d.oa = *s.oa;
+          else {
+            d.clear();
+            d.oa.reset(new OwnedArray<T>(*s.oa));
+          }
+        } catch (const InjectedFault &) {
+          threw = true;
         }
-        d.kind = OA, d.buf = newBuf(bufs[s.buf]), d.off = 0, d.n = s.n, d.src = -1;  // a copy of an owning array owns its own contents
+        g_failInCopies = 0;
+        if (!threw)
+          d.kind = OA, d.buf = newBuf(srcC), d.off = 0, d.n = s.n, d.src = -1;  // a copy of an owning array owns its own contents
+        else if (assign)
+          afterFault(di, oldD, srcC, "copy-assign OwnedArray " + std::to_string(si) + "->" + std::to_string(di));
+        else
+          vh::count("owned_array_ops_failed_by_failpoint");  // the copy never came to exist; slot di stays empty
       } else {
         if (assign)
           *d.fa = *s.fa;
@@ -638,7 +772,8 @@ int main(int argc, char **argv)
   vh::rule(
       "case = one random history (3..22 steps over 5 wrapper slots, harness-owned source vectors, shared FixedArrays): construct from "
       "vector/array/pointer/null, assign, reset, resize, copy-construct/copy-assign a wrapper then destroy/resize/write the original, views "
-      "outliving the creator's handle, element writes; after every step every live wrapper is read out completely. distinct = hash of the "
+      "outliving the creator's handle, element writes, OwnedArray reset from a range inside its own storage and self-assignment, and - for "
+      "an element type whose copies can be made to throw - assign/reset/resize/copy that fail half way; after every step every live wrapper is read out completely. distinct = hash of the "
       "operation sequence; every history is non-trivial. Assigning to a shared FixedArray while a FixedArrayView onto it exists is not "
       "generated (treated as a mutation of the viewed array, not as lifetime)");
   long n = vh::tier(24000, 800000);
@@ -656,7 +791,7 @@ int main(int argc, char **argv)
           dataView<int>(k, r);
           dataView<double>(k, r);
           dataView<S16>(k, r);
-          history<int>(k, r);
+          history<F16>(k, r);
           break;
         }
       },
